@@ -81,13 +81,14 @@ def handle (cmd : String) (j : J) : Except String J :=
     let root := NJ.nj n d
     let joins := if n = 2 then [] else NJ.njTrace NJ.pickPair n (NJ.star n d)
     pure (J.obj [("root", J.arr (root.map fun p => J.arr [r p.1, treeJ p.2])),
-                 ("joins", J.arr (joins.map fun p => J.arr [J.ofNat p.1, J.ofNat p.2]))])
+                 ("joins", J.arr (joins.map fun p => J.arr [J.ofNat p.1, J.ofNat p.2])),
+                 ("certified", J.bool (if n = 2 then false else NJ.njCertified n d))])
   | "upgma" => do
     let n ← (← j.get "n").toNat
     let d ← parseMat (← j.get "d")
     let big ← (← j.get "big").toRat
     match UPGMA.upgma n d big with
-    | some t => pure (J.obj [("tree", utreeJ t)])
+    | some t => pure (J.obj [("tree", utreeJ t), ("certified", J.bool (UPGMA.upgmaCertified n d big))])
     | none => pure (J.obj [("tree", J.null)])
   | _ => throw s!"unknown command {cmd}"
 
